@@ -1,5 +1,6 @@
 import TensorModel.Proofs.Serial
 import TensorModel.Props.C05
+import TensorModel.Props.C17compat
 /-!
   C14 — serialisation round-trips the logical tensor.
   Property theorems only; helper lemmas live in `TensorModel/Proofs/Serial.lean`, the model in
@@ -89,43 +90,45 @@ theorem sameTensor_of_decoded {st st' : St} {t d : Dense} {ap : AP} {cells : Lis
 
 /-! ### gob -/
 
-/-- gob, any memory layout, unmasked: if the storage window is exactly as long as the tensor is large
-    and the tensor is not of rank 0, the bytes read back as the same tensor (shape, strides, order
-    flags and window are carried over, so transposed and column-major tensors are fine). Partial:
-    outside `Excl_gobWindow` (F71) and `Excl_gobScalar` (F73); masks are not covered here. -/
+/-- gob, any memory layout, unmasked, every rank (rank 0 included): if the storage window is exactly as
+    long as the tensor is large, the bytes read back as the same tensor (shape, strides, order flags
+    and window are carried over, so transposed and column-major tensors are fine). Partial: outside
+    `Excl_gobWindow` (F71); masks are not covered here. -/
 theorem gob_roundtrip_partial (st : St) (t : Dense) (rec : Rec) (hm : t.mask = none)
-    (hx1 : Excl_gobWindow t = false) (hx2 : Excl_gobScalar t = false) (h : gobEnc st t = .ok rec) :
+    (hx1 : Excl_gobWindow t = false) (h : gobEnc st t = .ok rec) :
     ∃ st' d, gobDec st rec = .ok (st', d) ∧ SameTensor st t st' d := by
-  have hs : isScalar t.shape = false := hx2
-  have hw : (t.win.len : Int) = totalSize t.ap.shape := by
-    simp only [Excl_gobWindow, Excl_gobScalar] at hx1 hx2
-    simpa [hx2] using hx1
-  obtain ⟨cells, hr, hok, _⟩ := gob_dec_enc st t rec hm hs h
+  have hw : (t.win.len : Int) = totalSize t.ap.shape ∨ isScalar t.ap.shape = true := by
+    simp only [Excl_gobWindow] at hx1
+    cases hs : isScalar t.ap.shape with
+    | true => exact Or.inr rfl
+    | false => exact Or.inl (by simpa [hs] using hx1)
+  obtain ⟨cells, hr, hok, _⟩ := gob_dec_enc st t rec hm h
   obtain ⟨st', d, hd, hdec⟩ := hok hw
   exact ⟨st', d, hd, sameTensor_of_decoded hr hdec rfl rfl⟩
 
-/-- gob of a contiguous row-major non-view tensor of rank ≥ 1. -/
-theorem gob_roundtrip (st : St) (t : Dense) (rec : Rec) (hp : Plain t) (hs : isScalar t.ap.shape = false)
+/-- gob of a contiguous row-major non-view tensor of any rank. -/
+theorem gob_roundtrip (st : St) (t : Dense) (rec : Rec) (hp : Plain t)
     (h : gobEnc st t = .ok rec) : ∃ st' d, gobDec st rec = .ok (st', d) ∧ SameTensor st t st' d := by
-  refine gob_roundtrip_partial st t rec hp.mask ?_ hs h
+  refine gob_roundtrip_partial st t rec hp.mask ?_ h
   simp [Excl_gobWindow, hp.len]
 
-/-- gob carries the mask: a masked tensor of rank ≥ 1 whose window is its size reads back with the same
-    shape, strides and order flags over a fresh copy of the window, and with a fresh copy of the whole
-    mask (masks are index-aligned with the window, so the mask of every coordinate is preserved). -/
+/-- gob carries the mask: a masked tensor whose window is its size (or of rank 0) reads back with the
+    same shape, strides and order flags over a fresh copy of the window, and with a fresh copy of the
+    whole mask (masks are index-aligned with the window, so the mask of every coordinate is preserved). -/
 theorem gob_roundtrip_masked (st : St) (t : Dense) (rec : Rec) (m : Win) (hm : t.mask = some m)
     (hml : m.len = t.win.len) (hpos : 0 < t.win.len) (hx1 : Excl_gobWindow t = false)
-    (hx2 : Excl_gobScalar t = false) (h : gobEnc st t = .ok rec) :
+    (h : gobEnc st t = .ok rec) :
     ∃ cells mc st' d, t.rawCells st = .ok cells ∧ maskCells st t = .ok mc ∧ gobDec st rec = .ok (st', d) ∧
       d.ap.shape = t.ap.shape ∧ d.ap.strides = t.ap.strides ∧ d.ap.o = t.ap.o ∧ d.dt = t.dt ∧
       FreshOf st st' d cells ∧
       d.mask = some ⟨st.mheap.size, 0, mc.length, mc.length⟩ ∧ st'.mheap = st.mheap.push mc.toArray := by
-  have hs : isScalar t.shape = false := hx2
-  have hw : (t.win.len : Int) = totalSize t.ap.shape := by
-    simp only [Excl_gobWindow, Excl_gobScalar] at hx1 hx2
-    simpa [hx2] using hx1
+  have hw : (t.win.len : Int) = totalSize t.ap.shape ∨ isScalar t.ap.shape = true := by
+    simp only [Excl_gobWindow] at hx1
+    cases hs : isScalar t.ap.shape with
+    | true => exact Or.inr rfl
+    | false => exact Or.inl (by simpa [hs] using hx1)
   obtain ⟨cells, mc, st', d, hr, hmk, hd, hap, hdt, hf, hmask, hmh⟩ :=
-    gob_dec_enc_masked st t rec m hm hml hpos hs hw h
+    gob_dec_enc_masked st t rec m hm hml hpos hw h
   exact ⟨cells, mc, st', d, hr, hmk, hd, by rw [hap], by rw [hap], by rw [hap], hdt, hf, hmask, hmh⟩
 
 /-- F71 for every view: whenever the window is not as long as the tensor is large, the encoder
@@ -133,13 +136,8 @@ theorem gob_roundtrip_masked (st : St) (t : Dense) (rec : Rec) (m : Win) (hm : t
 theorem gob_window_unreadable (st : St) (t : Dense) (rec : Rec) (hm : t.mask = none)
     (hs : isScalar t.ap.shape = false) (hw : (t.win.len : Int) ≠ totalSize t.ap.shape)
     (h : gobEnc st t = .ok rec) : ∃ tag, gobDec st rec = .error (.err tag) := by
-  obtain ⟨_, _, _, herr⟩ := gob_dec_enc st t rec hm hs h
-  exact herr hw
-
-/-- F73 for every rank-0 tensor: written, and the reader panics. -/
-theorem gob_scalar_unreadable (st : St) (t : Dense) (rec : Rec) (hs : isScalar t.ap.shape = true)
-    (h : gobEnc st t = .ok rec) : ∃ tag, gobDec st rec = .error (.panic tag) :=
-  Serial.gob_scalar_unreadable st t rec hs h
+  obtain ⟨_, _, _, herr⟩ := gob_dec_enc st t rec hm h
+  exact herr ⟨hw, hs⟩
 
 /-- The unrestricted statement: every unmasked tensor gob writes reads back as the same tensor. -/
 def gob_roundtrip_full : Prop :=
@@ -168,14 +166,12 @@ theorem gob_roundtrip_full_fails : ¬ gob_roundtrip_full := by
   rw [herr] at hd
   cases hd
 
-/-- … and (F73) on a rank-0 tensor. -/
-theorem gob_roundtrip_full_fails_scalar : ¬ gob_roundtrip_full := by
-  intro hfull
+/-- … while a rank-0 tensor reads back as itself. -/
+theorem gob_roundtrip_scalar : ∃ rec st' d, gobEnc buf9 cell0 = .ok rec ∧ gobDec buf9 rec = .ok (st', d) ∧
+    SameTensor buf9 cell0 st' d := by
   obtain ⟨rec, hrec⟩ : ∃ rec, gobEnc buf9 cell0 = .ok rec := ⟨_, rfl⟩
-  obtain ⟨st', d, hd, _⟩ := hfull buf9 cell0 rec rfl hrec
-  obtain ⟨tag, herr⟩ := gob_scalar_unreadable buf9 cell0 rec rfl hrec
-  rw [herr] at hd
-  cases hd
+  obtain ⟨st', d, hd, hs⟩ := gob_roundtrip_partial buf9 cell0 rec rfl (by decide) hrec
+  exact ⟨rec, st', d, hrec, hd, hs⟩
 
 /-! ### protobuf and flatbuffers -/
 
@@ -196,37 +192,30 @@ theorem pb_roundtrip (st : St) (t : Dense) (rec : Rec) (hp : Plain t) (h : rawEn
     ∃ st' d, pbDec st rec = .ok (st', d) ∧ SameTensor st t st' d :=
   pb_roundtrip_partial st t rec (by simp [Excl_rawWindow, hp.len]) hp.mask h
 
-/-- flatbuffers, any layout: outside `Excl_rawWindow` (F77) and `Excl_fbShortStrides` (F78). -/
+/-- flatbuffers, any layout (tensors carrying fewer strides than dimensions included): outside
+    `Excl_rawWindow` (F77) the bytes read back as the same tensor. -/
 theorem fb_roundtrip_partial (st : St) (t : Dense) (rec : Rec) (hx : Excl_rawWindow t = false)
-    (hx2 : Excl_fbShortStrides t = false) (hm : t.mask = none) (h : rawEnc st t = .ok rec) :
+    (hm : t.mask = none) (h : rawEnc st t = .ok rec) :
     ∃ st' d, fbDec st rec = .ok (st', d) ∧ SameTensor st t st' d := by
   have _ := hm
   have hw : (t.win.len : Int) = totalSize t.ap.shape := by simpa [Excl_rawWindow] using hx
-  have hl : t.ap.shape.length ≤ t.ap.strides.length := by simpa [Excl_fbShortStrides] using hx2
   have h0 : 0 ≤ totalSize t.ap.shape := by omega
-  obtain ⟨cells, st', d, hr, hd, hdec⟩ := fb_dec_enc st t rec h h0 hl
+  obtain ⟨cells, st', d, hr, hd, hdec⟩ := fb_dec_enc st t rec h h0
   have hlen := rawCells_length st t cells hr
   have : (totalSize t.ap.shape).toNat = cells.length := by omega
   rw [this, rawFill_exact] at hdec
   exact ⟨st', d, hd, sameTensor_of_decoded hr hdec rfl rfl⟩
 
 theorem fb_roundtrip (st : St) (t : Dense) (rec : Rec) (hp : Plain t) (h : rawEnc st t = .ok rec) :
-    ∃ st' d, fbDec st rec = .ok (st', d) ∧ SameTensor st t st' d := by
-  refine fb_roundtrip_partial st t rec (by simp [Excl_rawWindow, hp.len]) ?_ hp.mask h
-  simp [Excl_fbShortStrides, hp.strides, calcStrides_length]
-
-/-- F78 for every tensor with fewer strides than dimensions: `FBDecode` panics. -/
-theorem fb_short_strides_unreadable (st : St) (t : Dense) (rec : Rec) (h : rawEnc st t = .ok rec)
-    (hl : t.ap.strides.length < t.ap.shape.length) : ∃ tag, fbDec st rec = .error (.panic tag) :=
-  fb_short_strides_panics st t rec h hl
+    ∃ st' d, fbDec st rec = .ok (st', d) ∧ SameTensor st t st' d :=
+  fb_roundtrip_partial st t rec (by simp [Excl_rawWindow, hp.len]) hp.mask h
 
 def pb_roundtrip_full : Prop :=
   ∀ (st : St) (t : Dense) (rec : Rec), t.mask = none → 0 ≤ totalSize t.ap.shape → rawEnc st t = .ok rec →
     ∃ st' d, pbDec st rec = .ok (st', d) ∧ SameTensor st t st' d
 
 def fb_roundtrip_full : Prop :=
-  ∀ (st : St) (t : Dense) (rec : Rec), t.mask = none → 0 ≤ totalSize t.ap.shape →
-    t.ap.shape.length ≤ t.ap.strides.length → rawEnc st t = .ok rec →
+  ∀ (st : St) (t : Dense) (rec : Rec), t.mask = none → 0 ≤ totalSize t.ap.shape → rawEnc st t = .ok rec →
     ∃ st' d, fbDec st rec = .ok (st', d) ∧ SameTensor st t st' d
 
 /-- It fails (F77): the reader succeeds on the column slice `[:, 1:3]`, but with a buffer of 6 cells
@@ -252,8 +241,8 @@ theorem pb_roundtrip_full_fails : ¬ pb_roundtrip_full := by
 theorem fb_roundtrip_full_fails : ¬ fb_roundtrip_full := by
   intro hfull
   obtain ⟨rec, hrec⟩ : ∃ rec, rawEnc buf9 view32 = .ok rec := ⟨_, rfl⟩
-  obtain ⟨st', d, hd, _, _, _, _, ⟨cells, hr, hf⟩, _⟩ := hfull buf9 view32 rec rfl (by decide) (by decide) hrec
-  obtain ⟨cells', st'', d', hr', hd', hdec'⟩ := fb_dec_enc buf9 view32 rec hrec (by decide) (by decide)
+  obtain ⟨st', d, hd, _, _, _, _, ⟨cells, hr, hf⟩, _⟩ := hfull buf9 view32 rec rfl (by decide) hrec
+  obtain ⟨cells', st'', d', hr', hd', hdec'⟩ := fb_dec_enc buf9 view32 rec hrec (by decide)
   rw [hd] at hd'
   injection hd' with hd'
   injection hd' with h1 h2
@@ -269,71 +258,49 @@ theorem fb_roundtrip_full_fails : ¬ fb_roundtrip_full := by
 
 /-! ### npy -/
 
-/-- npy of an unmasked tensor of a round-trippable element type, any layout, outside
-    `Excl_npyStorageOrder` (F70: the iterator's offsets are `0, 1, …, len-1`): the bytes read back as
-    the row-major tensor holding the source's logical listing. (int64/uint64: F74, bool: F75,
-    int/uint/string: refused.) -/
-theorem npy_roundtrip_partial (st : St) (t : Dense) (rec : Rec) (hm : t.mask = none) (hdt : NpGood t.dt)
-    (wf : C05.WFit t.ap) (hx : Excl_npyStorageOrder t = false) (h : npyEnc st t = .ok rec) :
+/-- npy of an unmasked tensor of a round-trippable element type, **any layout** (lazily transposed,
+    column-major, non-contiguous and stepped views included): the bytes read back as the row-major
+    tensor holding the source's logical listing. (int64/uint64: F74, int/uint/string: refused.) -/
+theorem npy_roundtrip_full (st : St) (t : Dense) (rec : Rec) (hm : t.mask = none) (hdt : NpGood t.dt)
+    (wf : C05.WFit t.ap) (h : npyEnc st t = .ok rec) :
     ∃ st' d, npyDec st rec = .ok (st', d) ∧ SameListing st t st' d := by
-  have hoff : rangeI t.win.len = t.offsets := by
-    simpa [Excl_npyStorageOrder, hm] using hx
   have hlen : (t.offsets).length = (totalSize t.ap.shape).toNat := C05.run_length t.ap wf
-  have hsz : t.win.len = (totalSize t.ap.shape).toNat := by
-    rw [← hoff, rangeI_length] at hlen; exact hlen
   have h0 : 0 ≤ totalSize t.ap.shape := Int.le_of_lt (prod_pos _ wf.2)
-  obtain ⟨cells, st', d, hr, hd, hdec⟩ := npy_dec_enc st t rec hm hdt h h0 (by omega)
-  have hcl := rawCells_length st t cells hr
-  have htake : cells.take (totalSize t.ap.shape).toNat = cells := by
-    rw [← hsz, ← hcl]; simp
-  rw [htake] at hdec
-  refine ⟨st', d, hd, ?_, hdec.dt, ?_, hdec.mask, cells, ?_, hdec.fresh⟩
+  obtain ⟨cells, st', d, hr, hd, hdec⟩ := npy_dec_enc st t rec hm hdt h h0 hlen
+  refine ⟨st', d, hd, ?_, hdec.dt, ?_, hdec.mask, cells, hr, hdec.fresh⟩
   · rw [hdec.ap]
   · rw [hdec.ap]
-  · unfold Dense.iterCells
-    rw [← hoff]
-    exact hr
+
+/-- the iterator of a contiguous row-major tensor walks the storage window left to right -/
+theorem plain_offsets (t : Dense) (hp : Plain t) (wf : C05.WFit t.ap) : t.offsets = rangeI t.win.len := by
+  have hlen : t.win.len = (totalSize t.ap.shape).toNat := by have := hp.len; omega
+  unfold Dense.offsets
+  by_cases hs : t.ap.shape = []
+  · rw [C05.scalar_run _ hs, hlen, hs]; rfl
+  · have hspec : C05.specOffsets t.ap = rangeI (totalSize t.ap.shape).toNat := by
+      unfold C05.specOffsets
+      rw [hp.strides]
+      exact C17compat.allCoords_map_rowRank _ wf.2
+    by_cases hv : t.ap.isVectorLike = true
+    · rw [C05.single_run _ wf hv hs, hspec, hlen]
+    · rw [C05.ndNext_run _ wf (by simpa using hv), hspec, hlen]
 
 /-- npy of a contiguous row-major tensor: the very same tensor comes back. -/
-theorem npy_roundtrip (st : St) (t : Dense) (rec : Rec) (hp : Plain t) (hdt : NpGood t.dt)
+theorem npy_roundtrip (st : St) (t : Dense) (rec : Rec) (hp : Plain t) (wf : C05.WFit t.ap) (hdt : NpGood t.dt)
     (h : npyEnc st t = .ok rec) : ∃ st' d, npyDec st rec = .ok (st', d) ∧ SameTensor st t st' d := by
+  have hlen : (t.offsets).length = (totalSize t.ap.shape).toNat := C05.run_length t.ap wf
   have h0 : 0 ≤ totalSize t.ap.shape := by have := hp.len; omega
-  obtain ⟨cells, st', d, hr, hd, hdec⟩ := npy_dec_enc st t rec hp.mask hdt h h0 (by have := hp.len; omega)
-  have hcl := rawCells_length st t cells hr
-  have htake : cells.take (totalSize t.ap.shape).toNat = cells := by
-    have : (totalSize t.ap.shape).toNat = cells.length := by have := hp.len; omega
-    rw [this]; simp
-  rw [htake] at hdec
-  exact ⟨st', d, hd, sameTensor_of_decoded hr hdec rfl hp.strides.symm⟩
+  obtain ⟨cells, st', d, hr, hd, hdec⟩ := npy_dec_enc st t rec hp.mask hdt h h0 hlen
+  have hraw : t.rawCells st = .ok cells := by
+    unfold Dense.iterCells at hr
+    rw [plain_offsets t hp wf] at hr
+    exact hr
+  exact ⟨st', d, hd, sameTensor_of_decoded hraw hdec rfl hp.strides.symm⟩
 
-def npy_roundtrip_full : Prop :=
-  ∀ (st : St) (t : Dense) (rec : Rec), t.mask = none → NpGood t.dt → C05.WFit t.ap →
-    totalSize t.ap.shape ≤ t.win.len → npyEnc st t = .ok rec →
-    ∃ st' d, npyDec st rec = .ok (st', d) ∧ SameListing st t st' d
-
-/-- It fails (F70): the lazy transpose of a (2,3) matrix is written in storage order. -/
-theorem npy_roundtrip_full_fails : ¬ npy_roundtrip_full := by
-  intro hfull
-  have wf : C05.WFit mat23T.ap := ⟨rfl, by intro d hd; simp [mat23T] at hd; omega⟩
-  have hg : NpGood mat23T.dt := by simp [NpGood, mat23T]
-  obtain ⟨rec, hrec⟩ : ∃ rec, npyEnc buf9 mat23T = .ok rec := ⟨_, rfl⟩
-  obtain ⟨st', d, hd, _, _, _, _, cells, hit, hf⟩ := hfull buf9 mat23T rec rfl hg wf (by decide) hrec
-  obtain ⟨cells', st'', d', hr', hd', hdec'⟩ := npy_dec_enc buf9 mat23T rec rfl hg hrec (by decide) (by decide)
-  rw [hd] at hd'
-  injection hd' with hd'
-  injection hd' with h1 h2
-  subst h1 h2
-  have heq := FreshOf_unique hf hdec'.fresh
-  have hit0 : mat23T.iterCells buf9 = .ok [.src 0 0, .src 0 3, .src 0 1, .src 0 4, .src 0 2, .src 0 5] := rfl
-  have hr0 : mat23T.rawCells buf9 = .ok [.src 0 0, .src 0 1, .src 0 2, .src 0 3, .src 0 4, .src 0 5] := rfl
-  rw [hit0] at hit
-  rw [hr0] at hr'
-  injection hit with hit
-  injection hr' with hr'
-  subst hit hr'
-  have h6 : (totalSize mat23T.ap.shape).toNat = 6 := by decide
-  rw [h6] at heq
-  simp at heq
+/-- on the lazy transpose of a (2,3) matrix that used to be written in storage order: the body is the
+    logical listing. -/
+example : (npyEnc buf9 mat23T).toOption.map (·.data) =
+    some [.src 0 0, .src 0 3, .src 0 1, .src 0 4, .src 0 2, .src 0 5] := rfl
 
 /-! ### csv -/
 
@@ -348,8 +315,8 @@ theorem csv_decode_rows (st : St) (dt : String) (first : List Val) (rest : List 
   exact ⟨_, _, rfl, rfl, rfl, rfl, rfl, rfl⟩
 
 /-- csv round trip — partial: the writer's half (that `WriteCSV` cuts the iterator's listing into
-    one record per row) is assumed here as `hcut`; it holds for every matrix that is not a column
-    vector and is checked against the implementation by the harness and on instances below, but is
+    one record per row) is assumed here as `hcut`; it holds for every matrix (column vectors
+    included) and is checked against the implementation by the harness and on instances below, but is
     not proved for all shapes (it needs the coordinate invariant of the iterator, C05.coord_tracks,
     threaded through `csvLoop`). -/
 theorem csv_roundtrip_partial (st : St) (t : Dense) (rec : Rec) (r c : Nat) (cells : List Val)
@@ -381,6 +348,7 @@ example : (csvEnc buf9 mat23T).toOption.map (·.rows) =
     some [[.src 0 0, .src 0 3], [.src 0 1, .src 0 4], [.src 0 2, .src 0 5]] := rfl
 example : (csvEnc buf9 view32).toOption.map (·.rows) =
     some [[.src 0 1, .src 0 2], [.src 0 4, .src 0 5], [.src 0 7, .src 0 8]] := rfl
+example : (csvEnc buf9 col31).toOption.map (·.rows) = some [[.src 0 0], [.src 0 1], [.src 0 2]] := rfl
 
 /-- canonical contiguous row-major `(r,c)` matrix over a buffer whose cell `i` is `src 0 i` -/
 def plainMat (r c : Nat) : St × Dense :=
@@ -398,47 +366,34 @@ def csvRowsIdx (r c : Nat) : Option (List (List Nat)) :=
   | .ok rec => some (rec.rows.map (·.map srcOff))
   | .error _ => none
 
-/-- Writer's half, bounded: for all `1 ≤ r, c ≤ 4` except column vectors the records are exactly the
-    rows (kernel-evaluated). -/
+/-- Writer's half, bounded: for all `1 ≤ r ≤ 5`, `1 ≤ c ≤ 4` (row vectors, column vectors and `(1,1)`
+    included) the records are exactly the rows (kernel-evaluated). -/
 theorem csv_writer_rows_bounded :
-    ∀ r ∈ [1, 2, 3, 4], ∀ c ∈ [1, 2, 3, 4], (c = 1 ∧ r > 1) ∨
+    ∀ r ∈ [1, 2, 3, 4, 5], ∀ c ∈ [1, 2, 3, 4],
       csvRowsIdx r c = some ((List.range r).map (fun i => (List.range c).map (fun j => i * c + j))) := by
   decide
 
-/-- … and for a column vector `(n,1)` only the first element is written (F72). -/
-theorem csv_writer_colvec_bounded : ∀ r ∈ [2, 3, 4, 5], csvRowsIdx r 1 = some [[0]] := by
-  decide
-
+/-- The unrestricted statement (writer's half included). Not proved for all shapes: see
+    `csv_roundtrip_partial` and `csv_writer_rows_bounded`. -/
 def csv_roundtrip_full : Prop :=
   ∀ (st : St) (t : Dense) (rec : Rec), t.mask = none → csvTypes.contains t.dt = true → C05.WFit t.ap →
     csvEnc st t = .ok rec → ∃ st' d, csvDec st rec = .ok (st', d) ∧ SameListing st t st' d
 
-/-- It fails (F72): of a column vector only the first element is written; `(1,1)` is read back. -/
-theorem csv_roundtrip_full_fails : ¬ csv_roundtrip_full := by
-  intro hfull
-  have wf : C05.WFit col31.ap := ⟨rfl, by intro d hd; simp [col31] at hd; omega⟩
-  have henc : csvEnc buf9 col31 = .ok { dt := "f64", rows := [[.src 0 0]] } := rfl
-  obtain ⟨st', d, hd, hsh, _⟩ := hfull buf9 col31 _ rfl (by decide) wf henc
-  rw [csvDec_rows buf9 "f64" [.src 0 0] [] (by decide) (by simp)] at hd
-  injection hd with hd
-  injection hd with _ h2
-  subst h2
-  simp [col31] at hsh
+/-- … on the column vector that used to lose its rows: `(3,1)` reads back as `(3,1)` over its listing. -/
+theorem csv_roundtrip_colvec : ∃ st' d, (csvEnc buf9 col31 >>= csvDec buf9) = .ok (st', d) ∧
+    d.ap.shape = [3, 1] ∧ FreshOf buf9 st' d [.src 0 0, .src 0 1, .src 0 2] :=
+  ⟨_, _, rfl, rfl, rfl, rfl⟩
 
-/-- F76 for every matrix of bool / complex elements: whatever `WriteCSV` wrote cannot be read. -/
-theorem csv_unreadable_types (st : St) (dt : String) (first : List Val) (rest : List (List Val))
-    (hdt : csvTypes.contains dt = false) :
-    ∃ tag, csvDec st { dt := dt, rows := first :: rest } = .error (.err tag) :=
-  csvDec_unreadable st dt first rest hdt
+/-- `convFromStrs` has an arm for every element type a tensor can be written with (bool and the
+    complex types included): the reader's half `csv_decode_rows` applies to all sixteen of them. -/
+theorem csv_reads_every_type : ∀ dt ∈ ["b", "i", "i8", "i16", "i32", "i64", "u", "u8", "u16", "u32", "u64",
+    "f32", "f64", "c64", "c128", "str"], csvTypes.contains dt = true := by decide
 
 -- non-vacuity: the witnesses are well-formed and the plain round trips apply to `mat23`
 example : Plain mat23 := ⟨rfl, rfl, rfl⟩
 example : C05.WFit mat23T.ap := ⟨rfl, by intro d hd; simp [mat23T] at hd; omega⟩
-example : Excl_npyStorageOrder mat23T = true := by decide
-example : Excl_npyStorageOrder mat23 = false := by decide
 example : Excl_gobWindow view32 = true := by decide
 example : Excl_rawWindow view32 = true := by decide
-example : Excl_csvColVec col31 = true := by decide
 example : String.ofList (fmtHdr "f8".toList [2, 3]) =
     "{'descr': '<f8', 'fortran_order': False, 'shape': (2, 3)}             " := by decide
 example : String.ofList (hdrBase "i2".toList [5]) = "{'descr': '<i2', 'fortran_order': False, 'shape': (5,)}" := by decide
